@@ -8,6 +8,16 @@ import (
 	"github.com/d5/tengo/v2/token"
 )
 
+// calleeError rewords an argument error returned by a callee so that it names
+// the callee; the callee's own error stays reachable for errors.Is/errors.As.
+type calleeError struct {
+	msg string
+	err error
+}
+
+func (e *calleeError) Error() string { return e.msg }
+func (e *calleeError) Unwrap() error { return e.err }
+
 // frame represents a function call frame.
 type frame struct {
 	fn          *CompiledFunction
@@ -652,16 +662,20 @@ func (v *VM) run() {
 				// runtime error
 				if e != nil {
 					if e == ErrWrongNumArguments {
-						v.err = fmt.Errorf(
-							"wrong number of arguments in call to '%s'",
-							value.TypeName())
+						v.err = &calleeError{
+							msg: fmt.Sprintf(
+								"wrong number of arguments in call to '%s'",
+								value.TypeName()),
+							err: e}
 						return
 					}
 					if e, ok := e.(ErrInvalidArgumentType); ok {
-						v.err = fmt.Errorf(
-							"invalid type for argument '%s' in call to '%s': "+
-								"expected %s, found %s",
-							e.Name, value.TypeName(), e.Expected, e.Found)
+						v.err = &calleeError{
+							msg: fmt.Sprintf(
+								"invalid type for argument '%s' in call to '%s': "+
+									"expected %s, found %s",
+								e.Name, value.TypeName(), e.Expected, e.Found),
+							err: e}
 						return
 					}
 					v.err = e
